@@ -2,7 +2,7 @@ package props
 
 import (
 	"fmt"
-	"go/ast"
+	"go/constant"
 	"go/token"
 	"sort"
 	"strings"
@@ -125,37 +125,62 @@ func runC18(c *Ctx) {
 		return
 	}
 	fb := map[string]map[string]bool{}
+	langName := map[int64]string{}
+	for _, l := range langs {
+		if v, ok := constant.Int64Val(l.Val()); ok {
+			langName[v] = l.Name()
+		}
+	}
 	for _, fnName := range []string{"singleLineComment", "multiLineComment"} {
 		fb[fnName] = map[string]bool{}
-		for _, f := range cp.Syntax {
-			for _, d := range f.Decls {
-				fd, ok := d.(*ast.FuncDecl)
-				if !ok || fd.Name.Name != fnName {
-					continue
+		fn := p.Func(cpPkg, "(*input)."+fnName)
+		if !c.R.Anchor(fn != nil, "commentparser.(*input)."+fnName) {
+			continue
+		}
+		// which language constant is the current language known to equal at block b?
+		langAt := func(b *ssa.BasicBlock) (string, bool) {
+			for _, f := range core.FactsAt(b) {
+				if cmp, ok := f.AsCmp(); ok && cmp.Op == token.EQL && strings.HasSuffix(core.AP(cmp.X), ".lang") {
+					if k, ok := core.ConstInt(cmp.Y); ok {
+						return langName[k], true
+					}
 				}
-				ast.Inspect(fd.Body, func(n ast.Node) bool {
-					ifs, ok := n.(*ast.IfStmt)
-					if !ok {
-						return true
-					}
-					be, ok := ifs.Cond.(*ast.BinaryExpr)
-					if !ok || be.Op != token.EQL {
-						return true
-					}
-					lang := selName(be.Y)
-					if lang == "" {
-						return true
-					}
-					ast.Inspect(ifs.Body, func(m ast.Node) bool {
-						if se, ok := m.(*ast.SelectorExpr); ok {
-							if inner, ok := se.X.(*ast.SelectorExpr); ok && selName(inner) != "" {
-								fb[fnName][lang+"->"+selName(inner)] = true
-							}
-						}
-						return true
-					})
-					return true
-				})
+			}
+			return "", false
+		}
+		for _, call := range core.CallsIn(fn) {
+			cal := call.Common().StaticCallee()
+			if cal == nil || core.FuncPkgPath(cal) != langPkg || len(call.Common().Args) == 0 {
+				continue
+			}
+			recv := call.Common().Args[0]
+			var srcs []struct {
+				v ssa.Value
+				b *ssa.BasicBlock
+			}
+			if phi, ok := recv.(*ssa.Phi); ok {
+				for k, e := range phi.Edges {
+					srcs = append(srcs, struct {
+						v ssa.Value
+						b *ssa.BasicBlock
+					}{e, phi.Block().Preds[k]})
+				}
+			} else {
+				srcs = append(srcs, struct {
+					v ssa.Value
+					b *ssa.BasicBlock
+				}{recv, call.Block()})
+			}
+			for _, sr := range srcs {
+				k, ok := core.ConstInt(sr.v)
+				if !ok {
+					continue // the current language itself
+				}
+				if cur, ok := langAt(sr.b); ok {
+					fb[fnName][cur+"->"+langName[k]] = true
+				} else {
+					fb[fnName]["?->"+langName[k]] = true
+				}
 			}
 		}
 	}
@@ -225,17 +250,6 @@ func runC18(c *Ctx) {
 		c.R.Check(okAll && n > 0, "R18.7", "QuoteCharacter: a backquote (raw) string never has an escape character", p.Pos(qc.Pos()),
 			fmt.Sprintf("%d return(s) under quote == '`' have constant escape=false", n), "the escape flag for backquote strings is not the constant false: a backslash before the closing backquote keeps the raw string open and its contents are mis-lexed")
 	}
-}
-
-func selName(e ast.Expr) string {
-	se, ok := e.(*ast.SelectorExpr)
-	if !ok {
-		return ""
-	}
-	if id, ok := se.X.(*ast.Ident); ok && id.Name == "language" {
-		return se.Sel.Name
-	}
-	return ""
 }
 
 func keysOf(m map[string]bool) []string {
